@@ -1,5 +1,5 @@
 (* ImpFactsDestroy.v - sbdf_obj_destroy (src/object.c) and sbdf_va_destroy (src/valuearray.c) from the source. *)
-From Sbdf Require Import ImpCall Gen.Prog Gen.Consts Base BaseFacts ImpFacts ImpFacts7 ImpFactsFrame ImpFactsCmp ImpFactsHeap ImpFactsRead ImpFactsCells.
+From Sbdf Require Import ImpCall Gen.Prog Gen.Consts Base BaseFacts ImpBase ImpFactsCells.
 From Coq Require Import ZifyBool.
 Local Open Scope Z_scope.
 Ltac Zify.zify_post_hook ::= Z.div_mod_to_equations.
